@@ -37,7 +37,17 @@ func vhLockFree(mu *sync.RWMutex) bool {
 func vhC13() {
 	// built through the public constructor so that the harness does not depend on the
 	// representation of the subscription tables
-	c := (&Client{}).NewConnection(&http.Request{Method: "GET", Header: http.Header{}})
+	req := &http.Request{Method: "GET", Header: http.Header{}}
+	// CTXCANCEL=1: one of the callbacks stops the connection (cancels the request context)
+	// when it sees an event; the event still reaches every other subscribed callback
+	var rctx *vhCtx
+	cancelAt := -1
+	if verifParam("CTXCANCEL", 0) == 1 {
+		rctx = &vhCtx{done: make(chan struct{})}
+		req = req.WithContext(rctx)
+		cancelAt = verifChoose("cancelat", 3)
+	}
+	c := (&Client{}).NewConnection(req)
 	// every map-typed and counter field of the Connection may only be read under the
 	// lock and written under the exclusive lock
 	verifGuardStruct(&c.mu, c)
@@ -93,6 +103,9 @@ func vhC13() {
 		}
 		return func(e Event) {
 			log = append(log, vhCall{idx, e})
+			if idx == cancelAt && rctx != nil {
+				rctx.cancel()
+			}
 			if concurrentRemove >= 0 && concurrentRemove < len(subs) && vhLockFree(&c.mu) {
 				subs[concurrentRemove].remove()
 				subs[concurrentRemove].active = false
